@@ -1,6 +1,7 @@
-(** C12 — With ignore_space, the amount of whitespace does not matter (PARTIAL, see below). *)
+(** C12 — With ignore_space, the amount of whitespace does not matter. *)
 From Vib Require Import Model.Base Model.Lattice Model.Tokenizer Model.DictBuild Spec.CandSpec Proofs.Viterbi Proofs.TokenizerProofs
-  Proofs.CountProofs Proofs.ScanInd Proofs.CandProofs Proofs.PartitionProofs Proofs.SpaceProofs.
+  Proofs.CountProofs Proofs.ScanInd Proofs.CandProofs Proofs.PartitionProofs Proofs.SpaceProofs
+  Proofs.RespaceBase Proofs.RespaceProofs.
 
 (** Under the property's precondition on the characters of the sentence ([space_sep]: space
     characters share a category with one another and with nobody else): *)
@@ -35,12 +36,96 @@ Proof. exact spaces_only_no_tokens. Qed.
 Theorem c12_ignore_space_rejected : forall names, index_of SPACE_NAME names 0%N = None -> space_mask names = Err.
 Proof. intros names H. unfold space_mask. now rewrite H. Qed.
 
-(** NOT proved (the full statement, kept visible):
-      c12_invariance : space_pre d o -> segments d s = segments d s' ->
-                       strip_ranges (tokenize d o s) = strip_ranges (tokenize d o s')
-    It needs a simulation between the scans of two re-spaced sentences (DESIGN.md section 5, C12).
-    The invariance itself is decided on the implementation by the metamorphic oracle of
-    Check/C12Check.v and on the model through the correspondence. *)
+(** THE INVARIANCE.  [dict_space_sep]: the space characters share a category with one another
+    and with no other character (they belong to SPACE alone and nobody else does);
+    [lex_space_free]: no lexicon surface contains a space character.  [respaced cs cs']: cs' is
+    obtained from cs by any number of steps, each replacing one maximal run of space characters by
+    another run of space characters -- of any non-zero length for an interior run, of any length
+    including zero for a leading or trailing run (so leading and trailing runs are added or
+    removed) -- neither sentence being empty.  Then whenever one sentence tokenizes, so does the
+    other, and the token sequences agree in everything but the character and byte ranges
+    ([strip]: surface, lexicon type, word id, feature, left and right connection ids, word cost
+    and total cost -- the cost across the gap is therefore the same). *)
+Theorem c12_invariance : forall d o cs cs', dict_space_sep d o -> lex_space_free d o -> respaced d o cs cs' ->
+  (forall ts L eos, tokenize_fresh d o cs = Done (ts, L, eos) ->
+     exists ts' L' eos', tokenize_fresh d o cs' = Done (ts', L', eos') /\ map strip ts' = map strip ts) /\
+  (forall ts L eos, tokenize_fresh d o cs' = Done (ts, L, eos) ->
+     exists ts' L' eos', tokenize_fresh d o cs = Done (ts', L', eos') /\ map strip ts' = map strip ts).
+Proof. exact respaced_same_tokens. Qed.
+
+(** and a re-spacing never turns a sentence that tokenizes into one that panics, or back *)
+Theorem c12_same_outcome : forall d o cs cs', dict_space_sep d o -> lex_space_free d o -> respaced d o cs cs' ->
+  (tokenize_fresh d o cs = Panicked <-> tokenize_fresh d o cs' = Panicked).
+Proof. exact respaced_same_outcome. Qed.
+
+(** the single-run statement the proof is built from: the loops of the two sentences simulate
+    each other position by position (positions before the run unchanged, positions after it
+    shifted, the run itself crossed without effect) *)
+Theorem c12_one_run : forall d o P R R' Q,
+  space_sep o (map (char_info (d_chars d)) (P ++ R ++ Q)) -> space_sep o (map (char_info (d_chars d)) (P ++ R' ++ Q)) ->
+  (forall c, In c R -> is_space o (char_info (d_chars d) c) = true) ->
+  (forall c, In c R' -> is_space o (char_info (d_chars d) c) = true) ->
+  (forall P0 c, P = P0 ++ [c] -> is_space o (char_info (d_chars d) c) = false) ->
+  (forall c Q0, Q = c :: Q0 -> is_space o (char_info (d_chars d) c) = false) ->
+  (P <> [] -> Q <> [] -> R <> []) -> (P <> [] -> Q <> [] -> R' <> []) -> lex_space_free d o ->
+  forall ts L eos, P ++ R ++ Q <> [] -> P ++ R' ++ Q <> [] ->
+  tokenize_fresh d o (P ++ R ++ Q) = Done (ts, L, eos) ->
+  exists ts' L' eos', tokenize_fresh d o (P ++ R' ++ Q) = Done (ts', L', eos') /\ map strip ts' = map strip ts.
+Proof. exact respace_tokens. Qed.
+
+(** Non-vacuity: a dictionary meeting the precondition, "ab c" re-spaced to "  ab   c " in three
+    steps (leading run added, interior run lengthened, trailing run added), and both tokenize. *)
+Definition ex12_sp : cinfo := {| ci_cates := 1; ci_base := 0; ci_invoke := false; ci_group := true; ci_length := 0 |}.
+Definition ex12_df : cinfo := {| ci_cates := 2; ci_base := 1; ci_invoke := false; ci_group := false; ci_length := 1 |}.
+Definition ex12_dict : dict :=
+  {| d_chars := {| ct_default := ex12_df; ct_ranges := [(32%N, 33%N, ex12_sp)] |};
+     d_sys := [ {| lr_surface := [97; 98]%N; lr_lid := 0; lr_rid := 0; lr_cost := 1; lr_feature := [65]%N |};
+                {| lr_surface := [99]%N; lr_lid := 0; lr_rid := 0; lr_cost := 2; lr_feature := [66]%N |} ];
+     d_user := None;
+     d_unk := [ {| ur_cate := 0; ur_lid := 0; ur_rid := 0; ur_cost := 9; ur_feature := [] |};
+                {| ur_cate := 1; ur_lid := 0; ur_rid := 0; ur_cost := 9; ur_feature := [] |} ];
+     d_conn := [[3%Z]] |}.
+Definition ex12_opts : options := {| o_space := Some 1%N; o_mgl := None |}.
+
+Lemma ex12_ci c : char_info (d_chars ex12_dict) c = ex12_sp \/ char_info (d_chars ex12_dict) c = ex12_df.
+Proof.
+  unfold char_info. cbn [d_chars ex12_dict ct_ranges ct_default lookup_ranges].
+  destruct ((32 <=? _)%N && (_ <? 33)%N); auto.
+Qed.
+
+Ltac ex12_last := let P0 := fresh in let c := fresh in let E := fresh in
+  intros P0 c E; apply (f_equal (fun l => last l 0%N)) in E; rewrite last_last in E; subst c; reflexivity.
+
+Example c12_example :
+  dict_space_sep ex12_dict ex12_opts /\ lex_space_free ex12_dict ex12_opts /\
+  respaced ex12_dict ex12_opts [97; 98; 32; 99]%N [32; 32; 97; 98; 32; 32; 32; 99; 32]%N /\
+  (exists ts L eos, tokenize_fresh ex12_dict ex12_opts [97; 98; 32; 99]%N = Done (ts, L, eos) /\
+     map strip ts = [([97; 98]%N, 0%N, 0%N, [65]%N, 0%N, 0%N, 1%Z, 4%Z); ([99]%N, 0%N, 1%N, [66]%N, 0%N, 0%N, 2%Z, 9%Z)]).
+Proof.
+  split; [|split; [|split]].
+  - intros c1 c2. cbn zeta. destruct (ex12_ci c1) as [->| ->], (ex12_ci c2) as [->| ->]; vm_compute; split; intros; try split; congruence.
+  - intros rw [Hr|(u & Hu & _)] c Hc; [|discriminate].
+    destruct Hr as [<-|[<-|[]]]; cbn in Hc; repeat (destruct Hc as [<-|Hc]; [reflexivity|]); destruct Hc.
+  - eapply (rs_step _ _ _ [32; 32; 97; 98; 32; 99]%N).
+    { exists [], [], [32; 32]%N, [97; 98; 32; 99]%N. repeat split; try discriminate; try congruence.
+      - intros c [].
+      - intros c [<-|[<-|[]]]; reflexivity.
+      - intros P0 c E. destruct P0; discriminate.
+      - intros c Q0 E. inversion E; reflexivity. }
+    eapply (rs_step _ _ _ [32; 32; 97; 98; 32; 32; 32; 99]%N).
+    { exists [32; 32; 97; 98]%N, [32]%N, [32; 32; 32]%N, [99]%N. repeat split; try discriminate.
+      - intros c [<-|[]]; reflexivity.
+      - intros c [<-|[<-|[<-|[]]]]; reflexivity.
+      - ex12_last.
+      - intros c Q0 E. inversion E; reflexivity. }
+    eapply (rs_step _ _ _ [32; 32; 97; 98; 32; 32; 32; 99; 32]%N).
+    { exists [32; 32; 97; 98; 32; 32; 32; 99]%N, [], [32]%N, []. repeat split; try discriminate; try congruence.
+      - intros c [].
+      - intros c [<-|[]]; reflexivity.
+      - ex12_last. }
+    apply rs_refl.
+  - vm_compute. eexists; eexists; eexists. split; reflexivity.
+Qed.
 
 Check c12_no_space_in_words.
 Print Assumptions c12_run_of_spaces.
@@ -48,3 +133,6 @@ Print Assumptions c12_words_start_after_run.
 Print Assumptions c12_no_space_in_words.
 Print Assumptions c12_spaces_only.
 Print Assumptions c12_ignore_space_rejected.
+Print Assumptions c12_invariance.
+Print Assumptions c12_same_outcome.
+Print Assumptions c12_one_run.
